@@ -36,11 +36,13 @@ type sinkEvent struct {
 	RData   string   `json:"rdata"`
 	REvent  string   `json:"revent"`
 	Echo    []int    `json:"echo"`
+	Boom    bool     `json:"-"` // sink s3: fail with a plain runtime error instead of returning a value
 	Thread  string   `json:"-"`
 	sched   []string `json:"-"`
 }
 
 const c11Source = `
+event := "a global variable with the name the sinks use for their event"
 total := 0
 func helper(x) {
     let y := x * 2
@@ -65,6 +67,18 @@ sink s1
         if event.state.fail {
             raise(event.state.type, event.state.detail, event.state.data)
         }
+    }
+sink s3
+    kindmatch ["t.c"],
+    priority 0
+    {
+        let id := event.state.id
+        verif.echo(event.state.id, helper(id))
+        if event.state.boom {
+            let l := [1]
+            let z := l[5]
+        }
+        return id
     }
 sink s2
     kindmatch ["t.b"],
@@ -137,8 +151,10 @@ func newC11Run(evs []*sinkEvent, workers int, controlled bool) (*c11Run, error) 
 			kind := []string{"t", "a"}
 			if e.Sink == "s2" {
 				kind = []string{"t", "b"}
+			} else if e.Sink == "s3" {
+				kind = []string{"t", "c"}
 			}
-			st := map[interface{}]interface{}{"id": float64(e.ID), "fail": e.Fail, "type": e.Type, "detail": e.Detail, "data": e.Data}
+			st := map[interface{}]interface{}{"id": float64(e.ID), "fail": e.Fail, "type": e.Type, "detail": e.Detail, "data": e.Data, "boom": e.Boom}
 			root := proc.NewRootMonitor(nil, nil)
 			proc.AddEventAndWait(engine.NewEvent(e.Name, kind, st), root)
 			errs := root.AllErrors()
@@ -199,6 +215,16 @@ func randomSinkEvents(rng *rand.Rand, n int, twoSinks bool) []*sinkEvent {
 		e := &sinkEvent{Ev: "event", Name: fmt.Sprintf("E%d", k+1), Sink: "s1", ID: 100 + k, Fail: rng.Intn(2) == 0}
 		if twoSinks && rng.Intn(3) == 0 {
 			e.Sink = "s2"
+		} else if twoSinks && c11BoomType != "" && rng.Intn(3) == 0 {
+			// a sink which reports a returned value for some events and a plain runtime error for others
+			e.Sink, e.Boom, e.Fail = "s3", rng.Intn(2) == 0, true
+			if e.Boom {
+				e.Type, e.Detail, e.Data = c11BoomType, c11BoomDetail, "<nil>"
+			} else {
+				e.Type, e.Detail, e.Data = "*** return ***", fmt.Sprintf("Return value: %d", e.ID), fmt.Sprint(e.ID)
+			}
+			evs = append(evs, e)
+			continue
 		}
 		if e.Fail {
 			e.Type = fmt.Sprintf("T%d", k+1)
@@ -210,12 +236,66 @@ func randomSinkEvents(rng *rand.Rand, n int, twoSinks bool) []*sinkEvent {
 	return evs
 }
 
+// what a plain runtime error of sink s3 looks like (learned from one invocation on its own)
+var c11BoomType, c11BoomDetail string
+
+func c11Calibrate() string {
+	c11BoomType, c11BoomDetail = "", ""
+	e := &sinkEvent{Ev: "event", Name: "CAL", Sink: "s3", ID: 1, Boom: true, Fail: true}
+	cr, err := newC11Run([]*sinkEvent{e}, 1, false)
+	if err != nil {
+		return err.Error()
+	}
+	ok := cr.s.WaitDone([]string{e.Thread}, 20*time.Second)
+	cr.finish()
+	if !ok || e.NErrors != 1 || e.RData != "<nil>" {
+		return fmt.Sprintf("calibration of sink s3: done=%v errors=%d type=%q data=%q", ok, e.NErrors, e.RType, e.RData)
+	}
+	c11BoomType, c11BoomDetail = e.RType, e.RDetail
+	// what one invocation of s1 with id 0 adds to the shared counter
+	e1 := &sinkEvent{Ev: "event", Name: "CAL1", Sink: "s1", ID: 0}
+	cr1, err := newC11Run([]*sinkEvent{e1}, 1, false)
+	if err != nil {
+		return err.Error()
+	}
+	ok = cr1.s.WaitDone([]string{e1.Thread}, 20*time.Second)
+	v, _, _ := cr1.env.vs.GetValue("total")
+	cr1.finish()
+	f, isNum := v.(float64)
+	if !ok || !isNum {
+		return fmt.Sprintf("calibration of the shared counter: done=%v total=%v", ok, v)
+	}
+	c11TotalBase = int(f)
+	return ""
+}
+
+var c11TotalBase int
+
+// c11CheckTotal compares the counter the sinks keep under an ECAL mutex with what the invocations must have added.
+func c11CheckTotal(r *ev.Run, cr *c11Run, evs []*sinkEvent, mode string) {
+	want := 0
+	for _, e := range evs {
+		if e.Sink == "s1" {
+			want += c11TotalBase + e.ID
+		}
+	}
+	v, _, _ := cr.env.vs.GetValue("total")
+	if f, ok := v.(float64); !ok || int(f) != want {
+		r.Violation("C11 counter kept under a mutex by overlapping invocations is wrong", fmt.Sprintf("%s run of %d invocations: total=%v, the invocations added %d (invocations entered the critical section together or lost their thread identity)", mode, len(evs), v, want),
+			map[string]interface{}{"events": len(evs), "mode": mode})
+	}
+}
+
 // C11 is the driver of property C11.
 func C11(r *ev.Run) {
 	tier := r.Tier
 	rng := rand.New(rand.NewSource(r.Seed))
 	r.Assume("every event is its own cascade (own root monitor), so its error report is the outcome recorded for its invocation")
 
+	if why := c11Calibrate(); why != "" {
+		r.Inconclusive(why)
+		return
+	}
 	// 1. TLC: all interleavings of three invocations (two of one sink, one of another)
 	jobs := []*MCJob{
 		{Name: "SinkInvoke/local", Opt: tlc.Options{Module: "MCSinkInvoke", Config: "SinkInvoke_local.cfg", Timeout: 5 * time.Minute, Workers: 4}},
@@ -344,6 +424,7 @@ func C11(r *ev.Run) {
 			r.Violation("C11 invocation never finished", "a sink invocation or its waiting caller is blocked for ever", map[string]interface{}{"events": evs, "schedule": out.Schedule})
 			continue
 		}
+		c11CheckTotal(r, cr, evs, "explored")
 		addRun(evs, out.Schedule)
 	}
 	nFree := pick(tier, 60, 400)
@@ -365,6 +446,7 @@ func C11(r *ev.Run) {
 			return
 		}
 		cr.finish()
+		c11CheckTotal(r, cr, evs, "free")
 		addRun(evs, []string{fmt.Sprintf("free/w%d", w)})
 	}
 
